@@ -294,6 +294,35 @@ def test_metric(case, note):
     one = np.ones(shape)
     note.cls("g4first" if case["g4first"] else "g3first")
 
+    # --- named components <-> tensors, on a separate instance (exact: the
+    # one is assembled from / sliced out of the other, whichever was given).
+    # The time derivative of the shift is supplied here in the same form.
+    data_c = P.geo_inputs(f, case["form"], False)
+    dtb = np.array([0.3 * f["betaup"][i] + 0.01 * (i + 1)
+                    for i in range(3)])
+    if case["form"] == "tensors":
+        data_c["dtbetaup3"] = dtb.copy()
+    else:
+        for i, a in enumerate("xyz"):
+            data_c["dtbeta" + a] = dtb[i].copy()
+    relc = make_rel(f["fd"], data_c, clear_cache_every_nbr_calc=10**9)
+    sfx = ["xx", "xy", "xz", "yy", "yz", "zz"]
+    for tens, ref, names, idx in (
+            ("gammadown3", f["gamma"], ["g" + q for q in sfx], P.SYM3),
+            ("Kdown3", f["K"], ["k" + q for q in sfx], P.SYM3),
+            ("betaup3", f["betaup"], ["betax", "betay", "betaz"],
+             [(0,), (1,), (2,)]),
+            ("dtbetaup3", dtb, ["dtbetax", "dtbetay", "dtbetaz"],
+             [(0,), (1,), (2,)])):
+        tv = get(relc, note, tens)
+        if tv is not None and not np.array_equal(tv, ref):
+            note.fail(f"{tens}:not-the-supplied-{case['form']}", {})
+        for nm, ix in zip(names, idx):
+            cv = get(relc, note, nm)
+            if cv is not None and not np.array_equal(cv, ref[ix]):
+                note.fail(f"{nm}:not-component-of-{tens}",
+                          dict(form=case["form"]))
+
     # --- gdet (both branches), g_tt / g_ti keys (both branches) ----------
     def check_gdet(v, disc):
         # frame S: |entries| <= 1, so sum|terms| <= 24
